@@ -28,6 +28,29 @@ def is_float(dtype):
     return np.dtype(dtype).type in FLOATS
 
 
+def clone_layout(arr):
+    """a private copy of `arr` with exactly the same shape and strides (so that NumPy takes the
+    same view-vs-copy decisions on the copy as on the original)"""
+    root = arr
+    while isinstance(root.base, np.ndarray):
+        root = root.base
+    try:
+        if root.base is not None or not (root.flags.c_contiguous or root.flags.f_contiguous or root.size == 0):
+            raise ValueError
+        rc = np.array(root, copy=True, order="K")
+        flat = rc.ravel(order="K")
+        if flat.base is None and flat is not rc and rc.ndim > 0 and rc.size:
+            # ravel copied: layout not reproducible this way
+            raise ValueError
+        off = arr.__array_interface__["data"][0] - root.__array_interface__["data"][0]
+        if arr.size == 0:
+            return np.array(arr, copy=True)
+        new = np.ndarray(arr.shape, arr.dtype, buffer=flat, offset=off, strides=arr.strides)
+        return new
+    except Exception:
+        return np.array(arr, copy=True)
+
+
 class Outcome:
     __slots__ = ("status", "exc", "msg", "expected_fail", "fault")
 
@@ -412,7 +435,9 @@ class World:
         for h, t in self.T.items():
             if not self.judged04(h):
                 old = self.S.get(h)
-                new = np.array(t.data, copy=True)
+                new = clone_layout(t.data)
+                if old is not None and not old.flags.writeable and new.flags.writeable:
+                    new.flags.writeable = False  # keep the native flag (e.g. broadcast views)
                 self.S[h] = new
 
     # ------------------------------------------------------------------ creation events
